@@ -169,7 +169,7 @@ Proof.
   - destruct r; inversion H; reflexivity.
   - destruct r as [id|]; [|inversion H; reflexivity].
     destruct (lookup m id) as [[| | | | | | |pt| |]|]; try (inversion H; reflexivity).
-    destruct (dict_get pt K_Count) as [[| |c| | | | | | |]|]; try (apply IH in H; exact H).
+    destruct (read_count m pt) as [c|]; [|apply IH in H; exact H].
     destruct (c =? I64_MIN)%Z; [inversion H; reflexivity|].
     apply IH in H. rewrite H. apply keys_update.
 Qed.
@@ -226,21 +226,22 @@ Proof.
   eapply kx_trans; [exact E|]. apply kx_with_objs. eapply set_page_entry_keys; exact Es.
 Qed.
 
+Lemma kx_replace_page_content d page c d' r : replace_page_content d page c = (d', r) -> kx d d'.
+Proof.
+  unfold replace_page_content.
+  destruct (add_object d (new_stream c)) as [[d1 nid]|] eqn:E; [|intro H; inversion H; apply kx_refl].
+  apply kx_add_object in E.
+  destruct (set_page_entry _ _ _ _) as [m2|] eqn:Es; intro H; inversion H; subst; [|exact E].
+  eapply kx_trans; [exact E|]. apply kx_with_objs. eapply set_page_entry_keys; exact Es.
+Qed.
+
 Lemma kx_change_page_content O d page c d' r : change_page_content O d page c = (d', r) -> kx d d'.
 Proof.
   unfold change_page_content. destruct (get_dictionary (d_objects d) page) as [pd|]; [|intro H; inversion H; apply kx_refl].
-  destruct (dict_get pd K_Contents) as [[| | | | | |l| | |i g]|]; try (intro H; inversion H; apply kx_refl).
-  - destruct l as [|x [|y l]].
-    + destruct (add_object d (new_stream c)) as [[d1 nid]|] eqn:E; [|intro H; inversion H; apply kx_refl].
-      apply kx_add_object in E.
-      destruct (set_page_entry _ _ _ _) as [m2|] eqn:Es; intro H; inversion H; subst; [|exact E].
-      eapply kx_trans; [exact E|]. apply kx_with_objs. eapply set_page_entry_keys; exact Es.
-    + destruct x; intro H; inversion H; subst; try apply kx_refl. apply kx_change_content_stream.
-    + destruct (add_object d (new_stream c)) as [[d1 nid]|] eqn:E; [|intro H; inversion H; apply kx_refl].
-      apply kx_add_object in E.
-      destruct (set_page_entry _ _ _ _) as [m2|] eqn:Es; intro H; inversion H; subst; [|exact E].
-      eapply kx_trans; [exact E|]. apply kx_with_objs. eapply set_page_entry_keys; exact Es.
-  - intro H; inversion H; subst. apply kx_change_content_stream.
+  destruct (dict_get pd K_Contents) as [x|]; [|intro H; inversion H; apply kx_refl].
+  destruct (single_stream (d_objects d) x) as [id|]; [|apply kx_replace_page_content].
+  destruct (is_content_stream_of_another_page d id page); [apply kx_replace_page_content|].
+  intro H; inversion H; subst. apply kx_change_content_stream.
 Qed.
 
 Lemma loc_set_keys m l o : map fst (loc_set m l o) = map fst m.
@@ -451,7 +452,7 @@ Proof.
   - inversion H.
   - destruct (decompress_objs O (d_objects d)) as [m ok]. destruct ok; inversion H.
   - inversion H.
-  - unfold change_page_content in H. crush_out H.
+  - unfold change_page_content, replace_page_content in H. crush_out H.
   - unfold add_page_contents in H. crush_out H.
   - unfold add_to_page_content, add_page_contents in H. crush_out H.
   - destruct (get_or_create_resources d page) as [d1 loc]. crush_out H.
